@@ -11,6 +11,7 @@ Section Fields.
   Variable parse : string -> option re.
   Variable enc : node -> string.
   Variable nonstr : string -> bool.
+  Variable decodes : tag -> string -> bool.
   Variable fuel : nat.
 
   (* every address of the document the matcher returns while copyValueToTarget works through the field paths *)
@@ -22,7 +23,7 @@ Section Fields.
         match pm parse enc nonstr (create_kind opts value) fuel (smarter_path_splitter "."%char fp) target with
         | Ok (d, hits) =>
             at_addrs hits ++
-            match write_hits opts live (reread live value d) hits d with
+            match write_hits decodes opts live (reread live value d) hits d with
             | Ok (d', (v', live')) => copy_hits opts live' v' t d'
             | _ => []
             end
@@ -44,7 +45,7 @@ Section Fields.
   (* copyValueToTarget, any field paths, create on or off *)
   Theorem copy_value_keeps : forall fps opts live value n n' st,
     paths_no_empty fps = true ->
-    copy_value_to_target parse enc nonstr fuel opts live value fps n = Ok (n', st) ->
+    copy_value_to_target parse enc nonstr decodes fuel opts live value fps n = Ok (n', st) ->
     forall a x, get_at a n = Some x ->
       (forall h, In h (copy_hits opts live value fps n) -> comparable a h = false) ->
       get_at a n' = Some x.
@@ -56,7 +57,7 @@ Section Fields.
       destruct (pm parse enc nonstr (create_kind opts value) fuel (smarter_path_splitter "."%char fp) n)
         as [[d hits]| | |] eqn:P; cbn -[write_hits pm] in H; try discriminate.
       destruct hits as [|h0 ht]; [discriminate|].
-      destruct (write_hits opts live (reread live value d) (h0 :: ht) d) as [[d' [v' live']]| | |] eqn:W;
+      destruct (write_hits decodes opts live (reread live value d) (h0 :: ht) d) as [[d' [v' live']]| | |] eqn:W;
         cbn -[write_hits pm] in H; try discriminate.
       assert (K1 : get_at a d = Some x).
       { eapply (pm_keeps _ _ _ _ _ Ne1 P); eauto. intros h Hh. apply Hc. apply in_or_app. left. apply in_at_addrs; auto. }
@@ -77,7 +78,7 @@ Section Fields.
 
   Theorem apply_node_keeps vs ts sel i n n' vs' :
     paths_no_empty (target_field_paths ts) = true ->
-    apply_target_to_node parse enc nonstr lsel fuel vs ts sel i n = Ok (n', vs') ->
+    apply_target_to_node parse enc nonstr decodes lsel fuel vs ts sel i n = Ok (n', vs') ->
     forall a x, get_at a n = Some x ->
       (forall h, In h (node_hits vs ts i n) -> comparable a h = false) ->
       get_at a n' = Some x.
@@ -95,15 +96,15 @@ End Fields.
 (* ---------- the value every returned field receives ---------- *)
 (* with a private copy of the value (not live) and returned addresses that do not overlap, EVERY
    returned field receives set_field_value of that value *)
-Theorem write_hits_all opts value : forall hits n n' st,
-  write_hits opts None value hits n = Ok (n', st) ->
+Theorem write_hits_all decodes opts value : forall hits n n' st,
+  write_hits decodes opts None value hits n = Ok (n', st) ->
   pairwise_incomparable (at_addrs hits) = true ->
   forall h x, In (HAt h) hits -> get_at h n = Some x ->
-    exists x', set_field_value opts value x = Ok x' /\ get_at h n' = Some x'.
+    exists x', set_field_value decodes opts value x = Ok x' /\ get_at h n' = Some x'.
 Proof.
   induction hits as [|[b|y] t IH]; intros n n' st H P h x Hin Hg; cbn in H.
   - destruct Hin.
-  - destruct (update_at (set_field_value opts value) b n) as [n1| | |] eqn:U; cbn in H; try discriminate.
+  - destruct (update_at (set_field_value decodes opts value) b n) as [n1| | |] eqn:U; cbn in H; try discriminate.
     cbn in P. apply andb_prop in P. destruct P as [P1 P2].
     destruct Hin as [E|Hin].
     + inv E. destruct (update_at_get _ _ _ _ _ U Hg) as (x' & Fx & Gx). exists x'. split; auto.
@@ -113,16 +114,16 @@ Proof.
     + eapply IH; eauto. rewrite <- Hg. eapply update_at_frame; eauto.
       rewrite forallb_forall in P1. specialize (P1 h (proj2 (in_at_addrs h t) Hin)).
       apply andb_prop in P1. destruct P1 as [_ B]. apply negb_true_iff in B. auto.
-  - destruct (set_field_value opts value y); cbn in H; try discriminate.
+  - destruct (set_field_value decodes opts value y); cbn in H; try discriminate.
     destruct Hin as [E|Hin]; [discriminate|]. eapply IH; eauto.
 Qed.
 
 (* ... in particular for what PathMatcher returns: its addresses never overlap (pm_hits_incomparable) *)
-Theorem matched_fields_written parse enc nonstr create fuel path opts value n d hits n' st :
+Theorem matched_fields_written parse enc nonstr decodes create fuel path opts value n d hits n' st :
   pm parse enc nonstr create fuel path n = Ok (d, hits) ->
-  write_hits opts None value hits d = Ok (n', st) ->
+  write_hits decodes opts None value hits d = Ok (n', st) ->
   forall h x, In (HAt h) hits -> get_at h d = Some x ->
-    exists x', set_field_value opts value x = Ok x' /\ get_at h n' = Some x'.
+    exists x', set_field_value decodes opts value x = Ok x' /\ get_at h n' = Some x'.
 Proof.
   intros P W. eapply write_hits_all; eauto. eapply pm_hits_incomparable; eauto.
 Qed.
@@ -133,8 +134,8 @@ Example copy_value_keeps_example :
                   ("spec", Map [("containers", Seq [Map [("name", Scalar TStr SPlain "web"); ("image", Scalar TStr SPlain "i:1")]])])] in
   let fps := ["spec.containers.[name=web].image"; "metadata.annotations.copied"] in
   paths_no_empty fps = true /\
-  copy_hits (parse_of [("web", Some (lit "web"))]) node_value (fun _ => false) 2 (Some (mkFO "" 0%Z true)) None
+  copy_hits (parse_of [("web", Some (lit "web"))]) node_value (fun _ => false) (fun _ _ => true) 2 (Some (mkFO "" 0%Z true)) None
             (Scalar TStr SPlain "v") fps pod = [[1; 0; 0; 1]; [0; 1; 0]] /\
-  exists n', copy_value_to_target (parse_of [("web", Some (lit "web"))]) node_value (fun _ => false) 2
+  exists n', copy_value_to_target (parse_of [("web", Some (lit "web"))]) node_value (fun _ => false) (fun _ _ => true) 2
                (Some (mkFO "" 0%Z true)) None (Scalar TStr SPlain "v") fps pod = Ok (n', (Scalar TStr SPlain "v", None)).
 Proof. split; [reflexivity|]. split; [vm_compute; reflexivity|]. eexists. vm_compute. reflexivity. Qed.
